@@ -251,16 +251,71 @@ def bound_with(bound, p, t):
     return [(b, ty) for b, ty in bound if b != p] + [(p, t)]
 
 
+TWICE_BODIES = ["lambda e: e.a + x", "lambda e: e.jets.Where(lambda j: j.pt > x).Count()", "lambda e: [j.pt for j in e.jets if j.pt > x]",
+                "lambda e: (lambda q: q + x)(e.a) + g"]
+
+
+def second_call_cases():
+    """The SAME callable object handed to the operator twice, the captured names rebound in between: each call must
+    freeze the values of its own moment (module-level defs, local defs over closure cells, stored lambdas, inline)."""
+    out = []
+    for passed in ("def-local", "def-global", "var-local", "var-global", "inline"):
+        for xs in ("g", "l1"):
+            if passed.endswith("-global") and xs != "g":
+                continue          # a module-level callable sees module globals only
+            for mid in ("x = 50", "x = x + 1", "x = [1, 2]", "x = 2.5"):
+                for body in TWICE_BODIES:
+                    vs = [Var("x", xs, "x = 30", after="x = 'REBOUND'", mid=mid), Var("g", "g", "g = 7", mid="g = 8")]
+                    out.append(Case(body, vs, 1, {"second-call", "mid:" + mid}, group="twice", passed=passed, twice=True))
+        # class constant / module attribute changed between the calls
+        K = Var("K", "g", "class K:\n    C = 5\n    class In:\n        D = 6", after="K = None", mid="K.C = 70\nK.In.D = 80")
+        out.append(Case("lambda e: e.a + K.C + K.In.D", [K], 1, {"second-call"}, group="twice", passed=passed, twice=True))
+        # a closure variable that starts hiding a global only before the second call cannot be written in python;
+        # the converse - both exist, both change
+        if not passed.endswith("-global"):
+            out.append(Case("lambda e: e.a + x", [Var("x", "g", "x = 1", mid="x = 2"), Var("x", "l1", "x = 10", mid="x = 20")],
+                            1, {"second-call", "FC1"}, group="twice", passed=passed, twice=True))
+    # once only, through a named callable (the history clause on the first recording, as for inline lambdas)
+    for passed in ("def-local", "def-global"):
+        for body in TWICE_BODIES[:3]:
+            out.append(Case(body, [Var("x", "g", "x = 30"), Var("g", "g", "g = 7")], 1, {"named-callable"}, group="twice", passed=passed))
+    return out
+
+
+# FC7: parameter kinds other than plain positional bind names too (outside the model's domain: oracle only)
+NONPLAIN = [
+    "lambda e: (lambda q, *x: q + len(x))(e.a, 1, 2) + x",
+    "lambda e: (lambda *x: x)(e.a, e.b)",
+    "lambda e: (lambda q, *, x=1: q + x)(e.a) + x",
+    "lambda e: (lambda q, *, x=1: q + x)(e.a, x=y)",
+    "lambda e: (lambda q, **x: q + len(x))(e.a, k=1) + x",
+    "lambda e: (lambda q, /, x: q + x)(e.a, 1) + x",
+    "lambda e: (lambda q, r=2: q + r + x)(e.a)",
+    "lambda e: (lambda q, r=y: q + r)(e.a) + x",
+    "lambda e: sum(e.jets.Select(lambda j, *x: j.pt + len(x))) + x",
+    "lambda e: sum(e.jets.Select(lambda j, x=3: j.pt + x)) + x",
+    "lambda e: [(lambda *x: len(x))(j.pt, y) for j in e.jets]",
+]
+
+
+def nonplain_cases():
+    out = []
+    for d, sc in ((1, "g"), (1, "l1"), (2, "l1")):
+        for s in NONPLAIN:
+            out.append(Case(s, [Var("x", sc, "x = 5", after="del x"), Var("y", sc, "y = 9")], d, {"FC7", "non-plain"}, group="nonplain"))
+    return out
+
+
 def all_cases(ctx):
-    cs = corpus() + shadow_cases() + class_cases() + value_cases()
+    cs = corpus() + shadow_cases() + second_call_cases() + nonplain_cases() + class_cases() + value_cases()
     rl = RandomLambda(ctx.rng)
     for _ in range(ctx.budget(400, 6000)):
         cs.append(rl.case())
     cap = ctx.budget(2600, 40000)
     if len(cs) > cap:
-        head = [c for c in cs if c.group in ("corpus", "shadow")]
-        rest = [c for c in cs if c.group not in ("corpus", "shadow")]
-        ctx.notes.append("%d generated programs; corpus+shadow patterns all kept, seeded sample of the rest to %d" % (len(cs), cap))
+        head = [c for c in cs if c.group in ("corpus", "shadow", "twice", "nonplain")]
+        rest = [c for c in cs if c.group not in ("corpus", "shadow", "twice", "nonplain")]
+        ctx.notes.append("%d generated programs; corpus, shadow, second-call and non-plain patterns all kept, seeded sample of the rest to %d" % (len(cs), cap))
         cs = head + ctx.rng.sample(rest, max(0, cap - len(head)))
     else:
         ctx.notes.append("all %d generated programs run" % len(cs))
